@@ -1,4 +1,5 @@
 import BitbybitModel.Props.Examples
+import BitbybitModel.Props.C07
 /-!
 # C08 — enum- and custom-typed fields convert through the type's raw value
 
@@ -43,6 +44,65 @@ theorem custom_with (Γ : CustomEnv) (chk : Bool) (B : Base) (fd : FieldDef) (ra
       simpa [this] using hrawfn⟩
   obtain ⟨e, he, x, hev, _, hsp, _⟩ := eval_setterBody Γ chk B fd raw i fv v hB hok hwide hraw hi harg
   exact ⟨e, he, by rw [hev, hsp hd]⟩
+
+/-! ### the user type instantiated: a bitenum, and a nested bitfield -/
+
+/-- the conversion functions of a bitenum `d` as the generated code of a *field* sees them (the model of
+    `bitenum.rs` plugged into the opaque environment) -/
+def enumEnv (d : EnumDef) : CustomEnv where
+  new := fun ty x =>
+    match x with
+    | .uint _ n | .int _ n =>
+      (match d.newWithRawValue n with
+       | .variant _ => if d.nonExhaustive then .ok (.res true (.custom ty x)) else .ok (.custom ty x)
+       | .err e => .ok (.res false (.int d.baseType e))
+       | .unreachable => .error (.panic "unreachable!()"))
+    | _ => .error (.stuck "raw type")
+  raw := fun v => match v with
+    | .custom _ r => .ok r
+    | _ => .error (.stuck "raw_value() receiver")
+
+/-- **`Option<E>` fields read as `Ok(variant)` or `Err(the raw field bits)`**: for a field of an arbitrary-width,
+    non-exhaustive (or conditional) bitenum `d`, the getter yields `Ok` of the variant whose discriminant is the field's
+    bits when there is one, and otherwise `Err` of exactly those bits – never a panic. -/
+theorem option_enum_get (chk : Bool) (B : Base) (fd : FieldDef) (raw i : Nat) (c : CustomTy) (d : EnumDef)
+    (hB : B.WF) (hok : FieldOk B fd) (hwide : fd.totalBits ≤ B.internal) (hc : fd.custom = some c)
+    (hreg : fd.useRegularInt = false) (hnb : fd.fieldTypeSize ≠ 0) (hne : d.nonExhaustive = true) (hnd : (C07.discrs d).Nodup)
+    (hi : ∀ c s, fd.array = some (c, s) → i < c) :
+    let bits := gather raw (offOf i fd.stride) fd.ranges 0
+    ∃ e, getterBody B fd = some e ∧
+      eval (enumEnv d) chk { raw := .int B.W raw, index := .int .usize i } e =
+        (if bits ∈ C07.discrs d then .ok (.res true (.custom c.ty (.uint fd.totalBits bits)))
+         else .ok (.res false (.int d.baseType bits))) := by
+  intro bits
+  obtain ⟨e, he, hev⟩ := custom_get (enumEnv d) chk B fd raw i c hB hok hwide hc hi
+  refine ⟨e, he, ?_⟩
+  rw [hev]
+  have hp : present fd bits = .uint fd.totalBits bits := by simp [present, hnb, hreg]
+  rw [hp]
+  by_cases hm : bits ∈ C07.discrs d
+  · obtain ⟨p, hpm, hpb⟩ := List.mem_map.mp hm
+    have := C07.new_hit d bits p.1 hnd (by rw [← hpb]; exact hpm)
+    simp [enumEnv, this, hne, hm]
+  · have := C07.new_miss d bits hm hne
+    simp [enumEnv, this, hm]
+
+/-- a nested bitfield (or any type whose conversions are total wrappers of its raw value) round-trips: the field
+    reads back the value that was written -/
+def wrapEnv : CustomEnv where
+  new := fun ty x => .ok (.custom ty x)
+  raw := fun v => match v with
+    | .custom _ r => .ok r
+    | _ => .error (.stuck "raw_value() receiver")
+
+theorem nested_get (chk : Bool) (B : Base) (fd : FieldDef) (raw i : Nat) (c : CustomTy)
+    (hB : B.WF) (hok : FieldOk B fd) (hwide : fd.totalBits ≤ B.internal) (hc : fd.custom = some c)
+    (hi : ∀ c s, fd.array = some (c, s) → i < c) :
+    ∃ e, getterBody B fd = some e ∧
+      eval wrapEnv chk { raw := .int B.W raw, index := .int .usize i } e
+        = .ok (.custom c.ty (present fd (gather raw (offOf i fd.stride) fd.ranges 0))) := by
+  obtain ⟨e, he, hev⟩ := custom_get wrapEnv chk B fd raw i c hB hok hwide hc hi
+  exact ⟨e, he, by rw [hev]; rfl⟩
 
 /-! non-vacuity: a 3-bit `Option<E>` field at bits 5..=7 of a `u32`, with an environment for a 3-bit enum
     whose only missing discriminant is 5 -/
